@@ -10,7 +10,7 @@ V = os.path.dirname(os.path.dirname(os.path.abspath(__file__)))
 
 META = {
  "C01": dict(level="exploration", ref="6/C01",
-   technique="TLA+ total-decoder model (TLC: no panic state, named guards, guard-removal mutations) + TLC-generated grammar-boundary datagram histories replayed into the real decoders and JSON encoders; seeded mutation amplification; full-range generated histories; 8 real workers decoding concurrently on one template cache under the race detector (a concurrently written Go map aborts the process)",
+   technique="TLA+ total-decoder model (TLC: no panic state, named guards, guard-removal mutations) + TLC-generated grammar-boundary datagram histories replayed into the real decoders and JSON encoders; seeded mutation amplification; full-range generated histories; 8 real workers decoding concurrently on one template cache under the race detector (a concurrently written Go map aborts the process); v5 and sFlow decoders side by side (8 goroutines, new exporter addresses) under the race detector",
    text="Exploration. TLC enumerates, for every length/count/type field of each wire grammar, the boundary values in every template-cache state reachable within the bound, and the real decode+marshal path is executed on every emitted history (plus seeded mutations of them) under recover/watchdog. Universal quantification over all byte strings is not enumerable, so this is not model checking of the code.",
    note="Trusts: the boundary sets cover the arithmetic of each guard; octet values outside the boundary/random sample are not explored."),
  "C02": dict(level="exploration", ref="6/C02",
@@ -22,11 +22,11 @@ META = {
    text="Model checking of the reference (round-trip theorem over a bounded-exhaustive structure space) plus conformance of the real decoder in both directions: every TLC-generated message is decoded by the real code and compared field by field, and seeded full-range messages decoded by the real code are validated line by line by TLC.",
    note="Structure is exhaustive within bounds, octet values are sampled. Trusted: the canonicaliser from Go values to (kind, octets)."),
  "C04": dict(level="model_checking", ref="6/C04",
-   technique="TLA+ TemplateCache sequential spec (LatestOwn) checked by TLC; every bounded history replayed through the real IPFIX and NetFlow v9 decode paths, incl. a hash-colliding exporter pair; random long histories validated as traces; same-message histories behind 15-40 sets of unknown templates; 40 000 concurrent first announcements of a colliding pair",
+   technique="TLA+ TemplateCache sequential spec (LatestOwn) checked by TLC; every bounded history replayed through the real IPFIX and NetFlow v9 decode paths, incl. a hash-colliding exporter pair; random long histories validated as traces; same-message histories behind 15-40 sets of unknown templates; 40 000 concurrent first announcements of a colliding pair; PeerFetch.tla (peer discovery window, request hand-over, fetch loop) with rpcServers() and the decoder's request queue bound",
    text="Model checking: TLC checks LatestOwn on all histories within the bound and each history is replayed against the real decoders (template announcements, re-announcements, data sets whose decode reveals the version used).",
    note="Exporter names are concretised by the harness (incl. an FNV-1 colliding pair found at run time)."),
  "C05": dict(level="exploration", ref="6/C05",
-   technique="TLA+ JSON tree/escaping model (TLC round-trip of the string renderer) + every message decoded in C03/C06/C07/C08 runs and a hostile-value generator re-parsed by a strict JSON parser and compared to the decoded message; the real workers of all four protocols running in parallel under the race detector, each published payload compared with the stand-alone payload of its datagram",
+   technique="TLA+ JSON tree/escaping model (TLC round-trip of the string renderer) + every message decoded in C03/C06/C07/C08 runs and a hostile-value generator re-parsed by a strict JSON parser and compared to the decoded message; the real workers of all four protocols running in parallel under the race detector, each published payload compared with the stand-alone payload of its datagram; IPFIX / v9 JSON also on a GOARCH=386 build",
    text="Exploration for values (hostile strings, float edge cases, 64-bit extremes), structure decided by the specification's JSON tree.",
    note="Trusted: encoding/json as the JSON parser; math/big comparison of numbers."),
  "C06": dict(level="model_checking", ref="6/C06",
@@ -47,36 +47,36 @@ META = {
    text="Model checking of the lock protocol; conformance by schedule replay, refusal probes and trace validation.",
    note="Gates are hooks under build tag verif."),
  "C11": dict(level="model_checking", ref="6/C11",
-   technique="TLA+ persistence layer (Dump as prefix writes with Crash between any two, total Load) checked by TLC; every prefix of real dump files (holding colliding exporter pairs, options and full-range templates), structural mutations, hand edits inside templates and byte flips loaded by the real GetCache and then used for decoding; aged files (45 min .. decades), low template ids, a withdrawn template inside a probe chain, a variable-length template",
+   technique="TLA+ persistence layer (Dump as prefix writes with Crash between any two, total Load) checked by TLC; every prefix of real dump files (holding colliding exporter pairs, options and full-range templates), structural mutations, hand edits inside templates and byte flips loaded by the real GetCache and then used for decoding; aged files (45 min .. decades), low template ids, a withdrawn template inside a probe chain, a variable-length template; the cache path as symbolic link / with blanks / relative; both protocols given one directory",
    text="Model checking of the persistence model and fault enumeration over every crash point of real cache files.",
    note=""),
  "C12": dict(level="model_checking", ref="6/C12",
    technique="TLA+ Pipeline spec (PublishedIsOwn, NoUseAfterPut) by TLC; the real workers of the four protocols gate-scheduled through hooks with pool probes (mirroring off / on / mirror queue full), traces validated by TLC (PipelineTrace.tla); byte-for-byte comparison with the stand-alone decode; the same workers free-running in parallel under the race detector; JSON size sweep at powers of two, producer queue full (MqCap in PipelineTrace), backlog mode, liveness (LiveSpec / Drains) by TLC",
    text="Model checking of the pipeline model; conformance by trace validation of the real workers.", note=""),
  "C13": dict(level="model_checking", ref="6/C13",
-   technique="TLA+ Pipeline spec (CountsExact, AtMostOnce, ExactlyOnceIfData) by TLC; traces and counters of the real workers validated; Stats.tla / StatsTrace.tla: snapshots of the REST and Prometheus statistics polled from two running collectors validated by TLC; StatsApa.tla inductive by Apalache",
+   technique="TLA+ Pipeline spec (CountsExact, AtMostOnce, ExactlyOnceIfData) by TLC; traces and counters of the real workers validated; Stats.tla / StatsTrace.tla: snapshots of the REST and Prometheus statistics polled from two running collectors validated by TLC; StatsApa.tla inductive by Apalache; a collector up for 35 s (trickle, then bursts): every sequence-numbered datagram published once",
    text="Model checking of the accounting invariants; conformance by trace validation.", note=""),
  "C14": dict(level="model_checking", ref="6/C14",
-   technique="TLA+ Producer spec (Subsequence, NoDup, ByteExact, BoundedGap) by TLC over all fault scripts; every TLC-generated fault script (sink dies / restarts) and stall scenarios (sink stops reading, then resets or reads on) replayed into producer.RawSocket against real TCP / UDP sinks, sink logs validated by TLC (ProducerTrace.tla); Kafka at the sarama.AsyncProducer boundary (ProducerKafka.tla, scripted library that encodes late); NSQ with the real go-nsq client against a scripted nsqd (ProducerNSQ.tla); NATS with the real nats.go client against an embedded nats-server (ProducerNATS.tla); ProducerKafkaChan.tla (channel structure: Progress needs the select) with a strict scripted library; a sink that is slow, not dead; a sink configured by name that moves (DNS inside the driver)",
+   technique="TLA+ Producer spec (Subsequence, NoDup, ByteExact, BoundedGap) by TLC over all fault scripts; every TLC-generated fault script (sink dies / restarts) and stall scenarios (sink stops reading, then resets or reads on) replayed into producer.RawSocket against real TCP / UDP sinks, sink logs validated by TLC (ProducerTrace.tla); Kafka at the sarama.AsyncProducer boundary (ProducerKafka.tla, scripted library that encodes late); NSQ with the real go-nsq client against a scripted nsqd (ProducerNSQ.tla); NATS with the real nats.go client against an embedded nats-server (ProducerNATS.tla); ProducerKafkaChan.tla (channel structure: Progress needs the select) with a strict scripted library; a sink that is slow, not dead; a sink configured by name that moves (DNS inside the driver); kafka.segmentio against a scripted in-process broker (ProducerBatch.tla), incl. a partition leader away for seconds",
    text="Model checking over fault sequences; replay of every TLC fault script into the real producer.", note=""),
  "C15": dict(level="model_checking", ref="6/C15",
-   technique="TLA+ Pipeline shutdown actions (NoSendOnClosed, AckedTemplatesSurvive) by TLC; the real run()+shutdown() with a full queue and stalled workers; end-to-end stop/start cycles of the built binary (idle / steady / burst / sustained traffic, wildcard and IPv4 bind) with signals at seeded offsets; long silence before the signal, megabyte cache files, redefine-only and scope-only cycles with per-exporter definition check after restart, restart under load, a colliding loopback exporter whose predecessor withdraws",
+   technique="TLA+ Pipeline shutdown actions (NoSendOnClosed, AckedTemplatesSurvive) by TLC; the real run()+shutdown() with a full queue and stalled workers; end-to-end stop/start cycles of the built binary (idle / steady / burst / sustained traffic, wildcard and IPv4 bind) with signals at seeded offsets; long silence before the signal, megabyte cache files, redefine-only and scope-only cycles with per-exporter definition check after restart, restart under load, a colliding loopback exporter whose predecessor withdraws; relative cache-file names with another working directory, the signal sent twice, statistics served only at their configured address",
    text="Model checking of the shutdown protocol plus end-to-end exploration.", note=""),
  "C16": dict(level="model_checking", ref="6/C16",
-   technique="TLA+ Mirror spec (Faithful for every payload length 0..MaxUDP, both address forms) by TLC; every length replayed through the real worker mirror branch, dispatcher and raw-socket mirror worker and captured on loopback; MirrorDispatch.tla (other-family flood); shutdown with mirroring enabled; the pipeline workers with mirroring on / mirror queue full validated by PipelineTrace.tla; max-udp-size 65535 (Lens), late-on mirroring, a worker waiting for the full mirror queue recognised, 3200 datagrams after the mirror worker has gone, backlog mode with mirror accounting, liveness with the mirror dead (MirrorBlocks refuted), Mirror6.tla (informational)",
+   technique="TLA+ Mirror spec (Faithful for every payload length 0..MaxUDP, both address forms) by TLC; every length replayed through the real worker mirror branch, dispatcher and raw-socket mirror worker and captured on loopback; MirrorDispatch.tla (other-family flood); shutdown with mirroring enabled; the pipeline workers with mirroring on / mirror queue full validated by PipelineTrace.tla; max-udp-size 65535 (Lens), late-on mirroring, a worker waiting for the full mirror queue recognised, 3200 datagrams after the mirror worker has gone, backlog mode with mirror accounting, liveness with the mirror dead (MirrorBlocks refuted), Mirror6.tla (informational); exporter source ports (incl. the mirror's own), collector port number equal to the mirror port",
    text="Model checking, exhaustive over lengths for small max-udp-size.", note=""),
  "C17": dict(level="model_checking", ref="6/C17",
-   technique="TLA+ Config spec (Effective = cli > file > env > default over all 8 source subsets) by TLC; every case replayed through the real flagSet for every option field, with -config before and after the other arguments; GetOptions() + SIGHUP: the options again after a reload; boolean spellings, range ends, address-like and YAML-like values",
+   technique="TLA+ Config spec (Effective = cli > file > env > default over all 8 source subsets) by TLC; every case replayed through the real flagSet for every option field, with -config before and after the other arguments; GetOptions() + SIGHUP: the options again after a reload; boolean spellings, range ends, address-like and YAML-like values; quoted numbers for the text options",
    text="Model checking; the configuration space is finite and covered.", note=""),
  "C18": dict(level="model_checking", ref="6/C18",
    technique="TLA+ FilterTransparent by TLC on the sFlow generator space; datagrams x filter lists (incl. aliasing-prone unknown types) replayed on sflow.SFDecoder and validated by TLC; the real sFlow workers in parallel sharing one configured list",
    text="Model checking of the reference plus replay.", note=""),
  "C19": dict(level="model_checking", ref="6/C19",
-   technique="TLA+ Reader spec: TLC exhaustive over buffers <= MaxLen x all operation/argument transitions, one real test per transition; random recorded traces validated by TLC (ReaderTrace); reader traces over value classes (all ones, zeros, sign bit); a reader made after each decoder has handled datagrams starts from nothing; readers side by side under the race detector",
+   technique="TLA+ Reader spec: TLC exhaustive over buffers <= MaxLen x all operation/argument transitions, one real test per transition; random recorded traces validated by TLC (ReaderTrace); reader traces over value classes (all ones, zeros, sign bit); a reader made after each decoder has handled datagrams starts from nothing; readers side by side under the race detector; binding A also on a GOARCH=386 build",
    text="Model checking: the reader's state space (buffer prefix, position) and every operation/argument transition is enumerated by TLC within the bound and each transition is executed on reader.Reader; recorded random traces of the real reader are validated against the same actions. The accounting invariant and the four action properties are checked on every transition.",
    note="Bound: buffers of length <= 9 (quick) / 12 (thorough) in the exhaustive part, <= 47 in traces; n >= 0."),
  "C20": dict(level="model_checking", ref="6/C20",
-   technique="TLA+ InfoModel spec: TLC evaluates TablesAgree/KeyedByOwnId/TypeRecognised/NoRetyping over dumps of the real built-in table and of the table after loading scripts/ipfix.elements; the same histories (every element) decoded with and without the file installed must give identical results; what the real decoder makes of every element validated against the snapshot-typed reference collector, after RFC 5610 type-information records for every element",
+   technique="TLA+ InfoModel spec: TLC evaluates TablesAgree/KeyedByOwnId/TypeRecognised/NoRetyping over dumps of the real built-in table and of the table after loading scripts/ipfix.elements; the same histories (every element) decoded with and without the file installed must give identical results; what the real decoder makes of every element validated against the snapshot-typed reference collector, after RFC 5610 type-information records for every element; the collector's table dumped again after v9 / IPFIX traffic with unknown field types",
    text="Model checking, exhaustive over the finite tables (every element of both).", note="The snapshot is the pinned tree's table (IANA registry not available offline)."),
 }
 
